@@ -222,6 +222,10 @@ pub enum Op {
     /// parent (update, disable, remove ...)
     TrRemoveLazy(Id),
     TrReplaceLazy(Id, ChildSpec),
+    /// EventLoop::block_on(future): the future returns Pending `pendings` times; each time it
+    /// either wakes itself during the poll (yield pattern) or relies on an environment Wakeup /
+    /// on the loop's sources; `max_iters` bounds the iterations (the closure then stops the loop)
+    BlockOn { pendings: u32, self_wake: bool, max_iters: u32 },
 }
 
 pub const INTEREST_NAMES: [&str; 4] = ["EMPTY", "READ", "WRITE", "BOTH"];
@@ -342,6 +346,7 @@ impl Op {
             Op::Run { .. } => "Run",
             Op::TrRemoveLazy(_) => "TrRemoveLazy",
             Op::TrReplaceLazy(..) => "TrReplaceLazy",
+            Op::BlockOn { .. } => "BlockOn",
         }
     }
 }
